@@ -577,6 +577,14 @@ def gen_correspondence(ctx, rules, rng):
     ctx.traces += len(reqs)
 
 def correspondence(ctx):
+    import time as _time
+    t0 = _time.time()
+    try:
+        _correspondence(ctx)
+    finally:
+        ctx.count("seconds_correspondence", int(round(_time.time() - t0)))
+
+def _correspondence(ctx):
     basecorr.run(ctx)
     rng = ctx.subrng("corr")
     n = ctx.budget(500, 10000)
@@ -894,7 +902,8 @@ def oracle_options(ctx):
     from dateutil import rrule as R
     rng = ctx.subrng("oracle-options")
     done = 0
-    for i in range(ctx.budget(45, 1500)):
+    # thorough budget 900 (was 1500): measured 0.35 s per case; with 1500 this stream alone took 9 of the 21.5 minutes of a thorough run
+    for i in range(ctx.budget(45, 900)):
         if ctx.escalated and ctx.unknown_violations() >= 5:
             break
         freq, ds, kw = gen_kwargs(rng, small_years=False)
@@ -1319,14 +1328,20 @@ def oracle_fold_space(ctx):
 def oracle(ctx):
     from dateutil import rrule as R, tz
     # the cheap sections first, so that the failing-input search after a correspondence mismatch reaches them early
-    oracle_fresh(ctx)
-    oracle_ambient(ctx)
-    oracle_fold_space(ctx)
-    oracle_options(ctx)
-    oracle_sets(ctx)
-    oracle_malformed(ctx)
+    import time as _time
+    for part in (oracle_fresh, oracle_ambient, oracle_fold_space, oracle_options, oracle_sets, oracle_malformed):
+        t0 = _time.time()
+        part(ctx)
+        ctx.count("seconds_" + part.__name__, int(round(_time.time() - t0)))      # where the wall time goes (evidence)
+    t0 = _time.time()
+    try:
+        oracle_roundtrips(ctx, R, tz)
+    finally:
+        ctx.count("seconds_oracle_roundtrips", int(round(_time.time() - t0)))
+
+def oracle_roundtrips(ctx, R, tz):
     rng = ctx.subrng("oracle")
-    n = ctx.budget(330, 10000)
+    n = ctx.budget(330, 7500)      # thorough 7500 (was 10000): 45 ms per rule; keeps the thorough tier near its 15 minute budget
     shown = 0
     # rules on which the model and str() disagreed come first (failing-input search after a correspondence mismatch)
     seeded = [m["rule"] for m in getattr(ctx, "c13_str_mismatch_rules", [])][:200]
